@@ -31,12 +31,13 @@ def run(ctx):
     out = ctx.harness(["state", "--random", "500" if quick else "8000", "--app", "300" if quick else "5000"])
     sscns = common.split_scenarios(out)
     for s, evs in sscns:
-        if s.get("app") or len(s["base"]) + sum(len(e) for e in s["extends"]) >= 5:
+        if s.get("app") or s.get("check") == "codec" or len(s["base"]) + sum(len(e) for e in s["extends"]) >= 5:
             ctx.note_nontrivial(common.chash(s))
     ctx.sample({"scenario": sscns[0][0], "events": [e["ev"] for e in sscns[0][1]]})
     ctx.validate("Trace_StateModel", sscns, label="state model")
     ctx.rule = ("histories = TLC-exported insert/overwrite histories (new key = smallest unused) from new(prefix) "
                 "+ seeded random histories on 12 keys; non-trivial = distinct history reaching >= 5 keys "
-                "(past the small-size specialisations)")
+                "(past the small-size specialisations); typed custom features (signed / unsigned integer, boolean, "
+                "floating point incl. negative values) written and read back through the typed accessors among ordinary features")
     ctx.assumptions += ["CompactOrderedHashMap::new is called with distinct keys (documented: 'assumed sorted')",
                         "IndexedEntry fields read through its Debug output"]
